@@ -136,11 +136,13 @@ def evaluate(cfg):
                             f = (binom(i, p) * binom(j, q) * binom(k, r) * d[0] ** (i - p)
                                  * d[1] ** (j - q) * d[2] ** (k - r))
                             pred[:, :, n] += f * got[:, :, idx[(p, q, r)]]
-                            amp[:, :, n] += abs(f) * np.abs(got[:, :, idx[(p, q, r)]])
+                            # each lower moment is only required to be exact to TOL * its own scale; the expansion
+                            # multiplies that allowance by |f| (and its rounding by the size of the terms)
+                            amp[:, :, n] += abs(f) * (sc[:, :, idx[(p, q, r)]] + 1e-4 * np.abs(got[:, :, idx[(p, q, r)]]))
             sc2 = cs_scale(shells, C2, orders)
             # the expansion is evaluated in double precision from the library's own lower moments: its rounding
             # error is proportional to the sum of |terms| (cancellation), not to the result
-            o.cmp("origin shift = binomial expansion in lower moments", got_c2, pred, TOL, sc2 + 1e-4 * amp)
+            o.cmp("origin shift = binomial expansion in lower moments", got_c2, pred, TOL, sc2 + amp)
     elif cfg["test"] == "lists":
         refall = oneel.matrix_multi(shells, shells, [oneel.MOMENT(*t) for t in ALL], C)
         scall = cs_scale(shells, C, ALL)
